@@ -6,6 +6,7 @@ Line-protocol driver for the C18 models (shard assignment + master state machine
   reset | up <id> | down <id> | dbcfg <db> | dropdb <db> | asg <db> s:r,r ...
   burst up <id> down <id> ...   (a batch of node events; answers the state after the last one)
   batch <line> | <line> | ...   (single-event lines; answers the state after the last one)
+  noop <what>                   (a malformed event: the state stays as it is)
   cfgh <db> <numShards> <rf> <faults> | n1 n2 ... | none|some s:r,r ... | none|some s:r,r ...
       (the repository side of one handled config event: registered nodes in listing order, the
        persisted assignment found, the assignment persisted afterwards as observed; faults is `-` or
@@ -88,6 +89,7 @@ def stepOne (st : St) (ws : List String) : St × String :=
       | _, _, _, _, _, _, _ => (st, "bad-op")
     | _ => (st, "bad-op")
   | ["reset"] => (St.init, "ok")
+  | ["noop", _] => (st, showState st)      -- an event the manager rejects (malformed config / node event)
   | "burst" :: rest =>
     match parseBurst rest with
     | some evs => let s := Master.run st evs; (s, showState s)
